@@ -1,6 +1,6 @@
 (* C20 -- Expansion of excluded days is exact. *)
 From Coq Require Import List ZArith Bool.
-From MM Require Import model.Dates proofs.DatesProofs.
+From MM Require Import model.Dates proofs.DatesProofs gen.Gen_Dates proofs.DatesBridge.
 Import ListNotations.
 Open Scope Z_scope.
 
@@ -38,7 +38,31 @@ Theorem C20_numbers_of_calendar_days :
     (day_lo <=? days_from_civil (y, m, d)) = true /\ (days_from_civil (y, m, d) <=? day_hi) = true.
 Proof. exact days_roundtrip. Qed.
 
+(* the same about the functions translated from utils.expand_time_windows and TimeWindow.__post_init__
+   (gen/Gen_Dates.v, regenerated from the source on every run) *)
+Theorem C20_translated_expand_spec :
+  forall ws d, In d (gen_expand_time_windows ws) <-> exists w, In w ws /\ fst w <= d <= snd w.
+Proof. intros ws d. rewrite gen_expand_is_model. apply expand_spec. Qed.
+Theorem C20_translated_expand_no_duplicates : forall ws, NoDup (gen_expand_time_windows ws).
+Proof. intros ws. rewrite gen_expand_is_model. apply expand_NoDup. Qed.
+Theorem C20_translated_expand_order_and_duplication_irrelevant :
+  forall ws1 ws2, (forall w, In w ws1 <-> In w ws2) ->
+  forall d, In d (gen_expand_time_windows ws1) <-> In d (gen_expand_time_windows ws2).
+Proof. intros ws1 ws2 H d. rewrite !gen_expand_is_model. now apply expand_same_days. Qed.
+Theorem C20_translated_window_constructor_rejects_exactly_reversed :
+  forall first_day last_day, gen_timewindow_raises first_day last_day = true <-> last_day < first_day.
+Proof. intros a b. rewrite gen_timewindow_raises_spec. apply Z.ltb_lt. Qed.
+Theorem C20_model_range_check_is_the_translated_constructor :
+  forall a b, valid_date a = true -> valid_date b = true ->
+  window_of (Range a b) =
+  if gen_timewindow_raises (days_from_civil a) (days_from_civil b) then RaiseValueError
+  else Ok (days_from_civil a, days_from_civil b).
+Proof. exact window_of_range_uses_constructor. Qed.
+
 Print Assumptions C20_expand_spec.
+Print Assumptions C20_translated_expand_spec.
+Print Assumptions C20_translated_expand_no_duplicates.
+Print Assumptions C20_translated_window_constructor_rejects_exactly_reversed.
 Print Assumptions C20_expand_no_duplicates.
 Print Assumptions C20_one_bad_entry_rejects_all.
 Print Assumptions C20_calendar_days_of_numbers.
